@@ -342,4 +342,140 @@ def rule_f(ctx: Ctx, rule: str = 'C20.f') -> None:
                 'when that found no element.')
 
 
-RULES = [rule_a, rule_b, rule_c, rule_d, rule_e, rule_f]
+NAME_TABLES = ('self.name', 'self.substitutes', 'self.qualified_name')
+
+
+def rule_g(ctx: Ctx) -> None:
+    """Name tests of XPath steps on the schema: a local name given with a default namespace is completed to {namespace}local, and
+    every comparison that follows - with the element's own name, its qualified name, the names of its substitution group - uses the
+    completed name.  A comparison that still sees the bare name makes the default-namespace form of a path miss what the prefixed
+    form finds (sibling pair is_matching / match)."""
+    rule = 'C20.g'
+    n = 0
+    for meth in ('is_matching', 'match'):
+        f = ctx.idx.method('xmlschema.validators.elements.XsdElement', meth)
+        ctx.analysed(f.qualname)
+        g = cfg_of(ctx, f)
+        rd = g.reaching_defs(kinds='nTF')
+        quals = [x for x in g.nodes if x.kind == 'stmt' and isinstance(x.ast, ast.Assign) and isinstance(x.ast.value, ast.JoinedStr)
+                 and 'default_namespace' in text(x.ast.value) and 'name' in names_in(x.ast.value)]
+        ctx.floor(rule, f'{meth}: completion of a local name with the default namespace', len(quals), 1)
+        if not quals:
+            continue
+        q = quals[0]
+        qvar = text(q.ast.targets[0])
+        after = g.reachable([q], kinds='nTF')
+        for x in g.nodes:
+            if x not in after or x is q:
+                continue
+            for e in (x.exprs or ([x.ast] if x.kind in ('stmt', 'return') else [])):
+                for cmp_ in [y for y in ast.walk(e) if isinstance(y, ast.Compare) and len(y.ops) == 1 and isinstance(y.ops[0], (ast.Eq, ast.NotEq, ast.In, ast.NotIn))]:
+                    l, r = cmp_.left, cmp_.comparators[0]
+                    tabs = [t for t in (text(l), text(r)) if t in NAME_TABLES or t.endswith('.qualified_name') or t.endswith('.name') and t != 'self.name' and not t.startswith('self.')]
+                    if not tabs:
+                        continue
+                    for opnd in (l, r):
+                        if not isinstance(opnd, ast.Name):
+                            continue
+                        n += 1
+                        defs = rd[x].get(opnd.id, set())
+                        # on paths through the completion, the operand must carry the completed name: its definitions reaching here are the completion itself
+                        # (plus, where the completion is conditional, the parameter for the paths that skipped it)
+                        if opnd.id == qvar:
+                            ok = q in defs
+                        else:
+                            ok = False
+                        if opnd.id in f.params and opnd.id != qvar:
+                            ok = False
+                        ctx.ob(rule, f'XsdElement.{meth}: `{text(cmp_)[:60]}` (line {cmp_.lineno}) compares the completed name', f.loc(cmp_), ok,
+                               '' if ok else f'`{opnd.id}` is the name as given, not `{qvar}`: with a default namespace a local name is looked up unqualified in {tabs[0]} - '
+                               'schema.find("/root/b/member", {"": ns}) returns None for a substitution-group member although /t:root/t:b/t:member finds it, and partial '
+                               'validation by that path silently skips the element', key=f'XsdElement.{meth}|completed|{text(cmp_)[:40]}')
+    ctx.floor(rule, 'name comparisons after the completion', n, 4)
+    ctx.explain('C20.g: reaching definitions in XsdElement.is_matching / match - every operand compared with the element name tables after the statement that completes a local '
+                'name with the default namespace is the completed variable.')
+
+
+def rule_h(ctx: Ctx) -> None:
+    """Limiting the depth changes nothing above the cut.  The document-wide reference check (_validate_references) reads tables that the
+    walk fills (xs:ID values seen, keyrefs still open); after a walk that skipped everything below max_depth those tables are incomplete,
+    so an xs:IDREF above the cut whose xs:ID lies below it is reported as dangling.  The three drivers must agree on not running the
+    check after a depth-limited walk."""
+    rule = 'C20.h'
+    n = 0
+    for q in ('xmlschema.validators.schemas.XMLSchemaBase.iter_errors', 'xmlschema.validators.schemas.XMLSchemaBase.iter_decode',
+              'xmlschema.validators.schemas.XMLSchemaBase.raw_decoder'):
+        f = ctx.idx.func(q)
+        ctx.analysed(q)
+        g = cfg_of(ctx, f)
+        for nd, c in call_nodes(g, lambda c: text(c.func) == 'self._validate_references'):
+            n += 1
+            gs = guards(ctx, f, nd)
+            ok = any(('max_depth is None' in t and lab == 'T') or ('max_depth is not None' in t and lab == 'F') or ('.cut' in t or 'truncated' in t) for t, lab in gs)
+            ctx.ob(rule, f'{q.split(".")[-1]}: the document-wide reference check is not run after a depth-limited walk', f.loc(c), ok,
+                   '' if ok else 'the check runs whatever max_depth is: xs:ID values below the cut were never registered, so for <root first="a"><sect><def id="a"/></sect></root> '
+                   '(first: xs:IDREF, def/@id: xs:ID) max_depth=1 reports "IDREF \'a\' not found" while the full run is clean (the sibling raw_decoder guards the call with '
+                   '`context.max_depth is None`)', key=f'{q}|references-after-cut')
+    ctx.floor(rule, 'document-wide reference checks', n, 3)
+    ctx.explain('C20.h: sibling agreement of iter_errors / iter_decode / raw_decoder on the guard of _validate_references (control dependence on a max_depth test).')
+
+
+def rule_i(ctx: Ctx) -> None:
+    """Limiting the depth changes nothing above the cut: in the loop of XsdGroup.raw_decode over the children, what belongs to the
+    parent's level - the character data after a child (child.tail) - is collected whether or not the child itself is beyond the limit."""
+    rule = 'C20.i'
+    from .common import reach_cut
+    n = 0
+    for cq in ('xmlschema.validators.groups.XsdGroup',):
+        f = ctx.idx.method(cq, 'raw_decode')
+        ctx.analysed(f.qualname)
+        g = cfg_of(ctx, f)
+        loops = [x for x in g.nodes if x.kind == 'for' and text(x.ast.iter) == 'enumerate(obj)']
+        if len(loops) != 1:
+            raise AnalysisError(f'{rule}: expected `for index, child in enumerate(obj)` in {f.qualname}')
+        lp = loops[0]
+        tails = [x for x in g.nodes if any(isinstance(y, ast.Attribute) and text(y) == 'child.tail' for e in (x.exprs or ([x.ast] if x.kind == 'stmt' else [])) for y in ast.walk(e))]
+        ctx.floor(rule, 'reads of child.tail in the decoding loop', len(tails), 1)
+        cuts = [x for x in g.nodes if x.kind == 'if' and text(x.ast.test) == 'over_max_depth' and isinstance(x.ast, ast.If)]
+        for x in cuts:
+            # the decoding side only (for plain validation nothing is collected)
+            if any(m.kind == 'continue' for m, lab in g.succ[x] if lab == 'T') and not any('depth_filler' in text(s_) for s_ in x.ast.body):
+                continue
+            n += 1
+            seen = reach_cut(g, [m for m, lab in g.succ[x] if lab == 'T'], set(), avoid=[lp], kinds='nTF')
+            ok = any(t in seen for t in tails)
+            ctx.ob(rule, 'XsdGroup.raw_decode: the text after a child beyond max_depth is still collected for the parent', f.loc(x.ast), ok,
+                   '' if ok else 'the branch for a child beyond the limit ends the iteration before `child.tail` is read: decode(\'<root>head<p/>mid<p/>tail</root>\', max_depth=1) '
+                   'returns only the first chunk, the mixed content above the cut differs from that of the full document', key='XsdGroup.raw_decode|tail-above-cut')
+    ctx.floor(rule, 'depth cuts on the decoding side', n, 1)
+    ctx.explain('C20.i: within one iteration of the loop over the children, the statement that reads child.tail is reachable from the true edge of the decoding-side '
+                '`over_max_depth` test.')
+
+
+def rule_j(ctx: Ctx) -> None:
+    """Validating and decoding the part selected by a path agree: max_depth is counted from `context.level`, so the two drivers have to
+    start a path-selected element at the same level."""
+    rule = 'C20.j'
+    lv = {}
+    for q, ctor in (('xmlschema.validators.schemas.XMLSchemaBase.iter_errors', 'ValidationContext'), ('xmlschema.validators.schemas.XMLSchemaBase.iter_decode', 'DecodeContext')):
+        f = ctx.idx.func(q)
+        ctx.analysed(q)
+        cs = [c for c in calls(f.node) if text(c.func) == ctor]
+        if len(cs) != 1:
+            raise AnalysisError(f'{rule}: expected one {ctor}(…) in {q}')
+        kw = {k.arg: k.value for k in cs[0].keywords if k.arg}
+        sets = [x for x in walk_no_nested(f.node) if isinstance(x, ast.Assign) and any(text(t) == 'kwargs' for t in x.targets)]
+        upd = [c for c in calls(f.node) if text(c.func) == 'kwargs.update' for k in c.keywords if k.arg == 'level']
+        level = kw.get('level')
+        lv[q] = (text(level) if level is not None else ('kwargs' if upd else '0 (default)'), f.loc(cs[0]))
+    a, b = lv.values()
+    with_path = {q: ('1' if 'bool(path)' in v[0] else '0') for q, v in lv.items()}
+    ok = len(set(with_path.values())) == 1
+    ctx.ob(rule, 'iter_errors and iter_decode start a path-selected element at the same level', a[1], ok,
+           '' if ok else f'iter_errors starts at level `{a[0]}`, iter_decode at `{b[0]}`: the same max_depth cuts one level earlier for validation - with path="/root/a" and max_depth=3 '
+           'iter_errors(\'<root><a><b><c>bad</c></b></a></root>\') reports nothing while decode(…, validation="lax") reports the error at /root/a/b/c',
+           key='drivers|initial-level-with-path')
+    ctx.explain('C20.j: the `level=` argument of the context constructed by iter_errors is compared with the one of iter_decode for the case of a non-empty path.')
+
+
+RULES = [rule_a, rule_b, rule_c, rule_d, rule_e, rule_f, rule_g, rule_h, rule_i, rule_j]
